@@ -29,6 +29,10 @@ for bits, count in plan.items():
             k = rsa_with_exponent(priv, e)
             if k:
                 out.append(k)
+for bits, count in {1024: 3, 2048: 3, 3072: 1, 4096: 1}.items():
+    for i in range(count):
+        priv = rsa.generate_private_key(public_exponent=3, key_size=bits)
+        out.append(rsa_with_exponent(priv, 3))
 for curve, name in ((ec.SECP256R1(), "P-256"), (ec.SECP384R1(), "P-384")):
     for i in range(6):
         priv = ec.generate_private_key(curve)
